@@ -75,6 +75,18 @@ fn chain_case(rng: &mut Rng, rec: &mut Rec) {
                         format!("hop {}: base {} Location {:?}: new flow has {} but RFC 3986 resolution gives {}", hop_i + 1, normalise(&eff.uri), loc, got, want),
                     );
                 }
+                let mut f = f;
+                if rng.chance(1, 8) {
+                    f.send_body_despite_method();
+                    rec.cov("despite-method-on-redirected-flow");
+                    let after = uri_norm(f.uri());
+                    if after != want {
+                        return rec.fail(
+                            "C14/uri-lost-by-despite-method",
+                            format!("hop {}: the new flow had {} but after send_body_despite_method() it has {}", hop_i + 1, want, after),
+                        );
+                    }
+                }
                 if f.uri().to_string().contains('#') {
                     return rec.fail("C14/fragment-kept", format!("new URI {} still has a fragment", f.uri()));
                 }
@@ -332,6 +344,8 @@ impl Property for P {
         }
         v.push(("several-location-fields".into(), 50));
         v.push(("self-absolute/*".into(), 20));
+        v.push(("empty-query/*".into(), 20));
+        v.push(("despite-method-on-redirected-flow".into(), 50));
         v.push(("empty/base-file/hop2".into(), 2));
         v.push(("wire-checked".into(), 500));
         v.push(("missing-location".into(), 5));
